@@ -19,6 +19,17 @@ def main(argv=None) -> int:
     if pid == "SELFTEST":
         from . import selftest
         return selftest.main(a.tier)
+    # watchdog: a check that does not finish is a broken analysis (exit 2), never a hang
+    import signal
+
+    def _late(signum, frame):
+        print(f"ANALYSIS-ERROR property={pid}: the check did not finish within its time budget")
+        os._exit(2)
+    try:
+        signal.signal(signal.SIGALRM, _late)
+        signal.alarm(int(os.environ.get("VERIF_TIMEOUT", "1500" if a.tier == "thorough" else "420")))
+    except (ValueError, AttributeError):
+        pass
     try:
         mod = importlib.import_module(f".checks.{pid.lower()}", __package__)
     except ModuleNotFoundError:
